@@ -260,9 +260,21 @@ def create_end_event(
                     if event_set.to_frozenset().issubset(loop_event_types):
                         end_event.update_in_event_sets(event_set.to_list())
         else:
-            # if no exit event nodes update end events in event sets to
-            # to be a single occurence of the end event
-            end_event.update_in_event_sets([end_event_node.event_type])
+            # if no exit event nodes mirror the in event sets of the loop
+            # start events that come from the loop end events (loop back
+            # edges), falling back to a single occurence of the end event
+            end_event_types = {event.event_type for event in loop.end_events}
+            mirrored = False
+            for start_event_node in loop.start_events:
+                for event_set in start_event_node.in_event_sets:
+                    if (
+                        end_event_node.event_type in event_set
+                        and event_set.to_frozenset().issubset(end_event_types)
+                    ):
+                        end_event.update_in_event_sets(event_set.to_list())
+                        mirrored = True
+            if not mirrored:
+                end_event.update_in_event_sets([end_event_node.event_type])
     return end_event
 
 
